@@ -302,6 +302,10 @@ def run(tier, seed, replay=None):
         {"Empty.qml": "", "Main.qml": "QWidget { Empty {} }"},
         {"lower.qml": "QWidget {}", "Main.qml": "QWidget { lower {} }"},
         {"X.qml": "QWidget {}", "x.qml": "QLabel {}", "Main.qml": "QWidget { X {} }"},
+        # legal non-ASCII type names (file stems): anonymous instances get generated names derived from them
+        {"Éditeur.qml": "QWidget {}", "UIÉcran.qml": "QLabel {}", "Ωmega.qml": "QFrame {}", "Ünï.qml": "QPushButton {}", "A日本.qml": "QLabel {}",
+         "Main.qml": "QWidget { QVBoxLayout { Éditeur {} UIÉcran {} Ωmega {} Ünï { onClicked: {} } A日本 { text: \"x\" } Éditeur { id: e } } }"},
+        {"Éditeur.qml": "Éditeur {}", "Main.qml": "Éditeur { Éditeur {} }"},
     ]
     proj_dir = common.workdir("c07proj")
     for k, files in enumerate(PROJECTS):
